@@ -181,6 +181,46 @@ theorem parseIntegral_unsigned_in_range (ty raw out : String) (hu : isUnsignedIn
           exact ⟨n, rfl, hlt, h.symm⟩
         · simp [hlt] at h
 
+/-- **the two router models agree on the gate**: the request-level model refuses exactly when the step-list
+    model of the rendered handler (`Router.exec` over `handlerOf`, the model the go/ast extraction of the
+    rendered file is compared with) runs no parsing / controller step — for every route with the same
+    effective security, every request, every deny set. -/
+theorem serve_refused_iff_exec_gate (enums : List String) (sr : SRoute) (bound : List (String × String)) (rq : Req)
+    (c : Controller) (r : Route) (hsec : enforcedSecurity r = sr.r.security) :
+    (∃ asked, serveRoute enums sr bound rq = .refused asked) ↔
+      (exec (denyCallback rq.deny) (handlerOf c r)).any isControllerEvent = false := by
+  constructor
+  · rintro ⟨asked, h⟩
+    unfold serveRoute at h
+    cases ha : authorize (denyCallback rq.deny) [] none (sr.r.security.map checksOf) with
+    | mk res hist =>
+      rw [ha] at h
+      cases res with
+      | none =>
+        simp only at h
+        cases hb : bindAll enums bound rq sr.infos with
+        | none => rw [hb] at h; simp at h
+        | some a => rw [hb] at h; simp at h
+      | some e =>
+        have h1 : (authorize (denyCallback rq.deny) [] none ((enforcedSecurity r).map checksOf)).1 = some e := by rw [hsec, ha]
+        exact (refused_no_controller _ c r e h1).1
+  · intro h
+    unfold serveRoute
+    cases ha : authorize (denyCallback rq.deny) [] none (sr.r.security.map checksOf) with
+    | mk res hist =>
+      cases res with
+      | some e => exact ⟨hist, rfl⟩
+      | none =>
+        exfalso
+        -- approved: the handler runs at least the controller construction step
+        have hg := gateFirst_handlerOf c r
+        unfold handlerOf at h hg
+        simp only [List.cons_append, List.nil_append] at h hg
+        rw [exec_gateFirst _ _ _ hg] at h
+        have h1 : (authorize (denyCallback rq.deny) [] none ((enforcedSecurity r).map checksOf)).1 = none := by rw [hsec, ha]
+        rw [h1] at h
+        simp [isControllerEvent, List.any_append, List.any_map] at h
+
 /-! non-vacuity: a route with two alternatives, the first refused; a missing required query member -/
 def exRoute : SRoute :=
   { ctrl := "C", ctrlPath := "/c/",
